@@ -81,6 +81,13 @@ func genC12Extra(t *rapid.T) []cfggen.User {
 		}
 		out = append(out, u)
 	}
+	// words the tree under test knows and the unchanged tree does not (see newWords): a user of that name
+	// with the file accounter, so that whatever meaning the word was given has something to act on
+	for _, w := range newWords() {
+		if rapid.Bool().Draw(t, "user_named_"+w) {
+			out = append(out, cfggen.User{Name: w, Scopes: []string{cfggen.ScopeA}, Accounter: cfggen.FileAccounter()})
+		}
+	}
 	return out
 }
 
@@ -126,7 +133,7 @@ func genC12(t *rapid.T) c12Case {
 			Priv:    rapid.ByteRange(0, 15).Draw(t, "priv"),
 			AType:   rapid.SampledFrom(authenTypes0).Draw(t, "atype"),
 			Service: rapid.SampledFrom(authenServices).Draw(t, "service"),
-			User:    model.B(rapid.SampledFrom([]string{"alice", "alice", "dave", "a%sb", "bob", "carol", "carol", "carol", "erin", "mallory", "", "x0", "x1", "x2", "x3", "x0", "x1"}).Draw(t, "user")),
+			User:    model.B(rapid.SampledFrom(append([]string{"alice", "alice", "dave", "a%sb", "bob", "carol", "carol", "carol", "erin", "mallory", "", "x0", "x1", "x2", "x3", "x0", "x1", ""}, newWords()...)).Draw(t, "user")),
 			Port:    genNastyText(t, "port", 255),
 			RemAddr: genNastyText(t, "rem", 255),
 		}
